@@ -7,6 +7,7 @@ import (
 	"fmt"
 	"io"
 	"strconv"
+	"strings"
 	"sync"
 	"testing"
 	"testing/synctest"
@@ -64,6 +65,16 @@ var values = []pc{
 	{"a", []byte("\x00b")},
 	{"a", []byte{}},
 	{"a", nil},
+}
+
+// long protocol IDs: the boundary between protocol ID and context moves by
+// 127, 128, 255, 256 and 512 bytes while the concatenation stays the same
+// (length prefixes that wrap or truncate would make these collide).
+func init() {
+	for _, n := range []int{127, 128, 255, 256, 512} {
+		x := strings.Repeat("0123456789abcdef", n/16+1)[:n]
+		values = append(values, pc{protocol.ID("dex" + x), []byte("bucket")}, pc{"dex", []byte(x + "bucket")})
+	}
 }
 
 // ---------------------------------------------------------------------------
@@ -417,7 +428,9 @@ func TestC30(t *testing.T) {
 			allCons = append(allCons, cons{p, tr})
 		}
 	}
-	admits := func(c cons) bool { return (c.peer == "" || c.peer == "remote") && (c.transport == "0" || c.transport == "own") }
+	admits := func(c cons) bool {
+		return (c.peer == "" || c.peer == "remote") && (c.transport == "0" || c.transport == "own")
+	}
 
 	nBubbles := 0
 	// exec runs one scenario given per-side (value, constraint) lists and judges it.
